@@ -96,4 +96,7 @@ class ReplaceTypeAnn(ast.NodeTransformer):
 
         node.returns = _replace_types_annotations(node.returns)
 
+        # typed assignments of the body
+        node.body = [self.visit(stmt) for stmt in node.body]
+
         return node
